@@ -28,7 +28,7 @@ EXPLANATION = (
     "edits go through the boundary-aware helper only (no str.replace on equations in _update_equation; the rule table keys "
     "replace/remove/append/prepend are each handled).  R5 the key under which a definition is stored in the dump dictionary is re-tested "
     "until it is unused or holds an equal definition (a while loop, not a single if).  R6 from_yaml derives through update_template of "
-    "the loaded base and instantiates known classes with exactly the loaded dictionary.  R4 also: no replace/remove edit can run after an append/prepend edit of the same update (added text is not rewritten).  NOT decided: dynamics of round-tripped models, "
+    "the loaded base and instantiates known classes with exactly the loaded dictionary.  R4 also: no replace/remove edit can run after an append/prepend edit of the same update (added text is not rewritten).  R10 equations given under `add` reach the derived template and are not iterated into the edit helper.  NOT decided: dynamics of round-tripped models, "
     "relative path resolution on a file system, ruamel.yaml behaviour; a dumped operator variant gets a new name (op_num1) - a format "
     "limitation that is outside these rules."
 )
@@ -456,6 +456,70 @@ def r8_boundary_vocabulary(ctx, rid):
     r4_boundary_vocabulary(ctx, rid)
 
 
+def r10_added_equations_verbatim(ctx, rid):
+    """Equations listed under `add` of an edit dictionary are new text: they are taken over verbatim and the other edits (replace,
+    remove, append, prepend) act on the INHERITED equations only.  In update_template the value read under the key 'add' must reach
+    the equations handed to the constructor, and must not be part of what is iterated into the edit helper `_update_equation`."""
+    from engine.inline import inlined
+    from engine.util import value_sources
+    f0 = ctx.repo.get_func(FO, "OperatorTemplate.update_template")
+    f = inlined(ctx, f0, keep=("_update_equation",))
+
+    def is_add(e):
+        return isinstance(e, ast.Constant) and e.value == "add"
+    adds = [n for n in walk_shallow(f.node)
+            if (isinstance(n, ast.Call) and isinstance(n.func, ast.Attribute) and n.func.attr in ("pop", "get") and n.args and is_add(n.args[0]))
+            or (isinstance(n, ast.Subscript) and is_add(n.slice) and isinstance(n.ctx, ast.Load))]
+    if not adds:
+        raise AnalysisError(f"{rid}: update_template no longer reads the `add` entry of an edit dictionary (unrecognised form)")
+    edits = [c for c in walk_shallow(f.node) if isinstance(c, ast.Call) and call_name(c) == "_update_equation"]
+    if not edits:
+        raise AnalysisError(f"{rid}: update_template no longer applies _update_equation")
+
+    def derives_from_add(expr) -> bool:
+        seen = []
+        value_sources(ctx, f, expr, visited=seen)
+        return any(a is x for e in seen for x in ast.walk(e) for a in adds)
+    for c in edits:
+        eq = c.args[0] if c.args else None
+        it = None
+        if isinstance(eq, ast.Name):
+            for a in _anc15(c):
+                if isinstance(a, (ast.ListComp, ast.GeneratorExp, ast.SetComp)):
+                    for g in a.generators:
+                        if any(isinstance(x, ast.Name) and x.id == eq.id for x in ast.walk(g.target)):
+                            it = g.iter
+                elif isinstance(a, ast.For) and any(isinstance(x, ast.Name) and x.id == eq.id for x in ast.walk(a.target)):
+                    it = a.iter
+                if it is not None:
+                    break
+        if it is None:
+            raise AnalysisError(f"{rid}: cannot find what `{norm(c)[:60]}` iterates over (unrecognised form)")
+        if derives_from_add(it):
+            ctx.violation(rid, f0, c, f"the equations given under `add` are part of `{norm(it)[:60]}`, which is run through the edit helper: a "
+                                      f"replace/remove/append/prepend of the same edit dictionary rewrites the newly added text as well",
+                          label="added equations are not edited")
+        else:
+            ctx.ok(rid, f0, c, "the edit helper runs over the inherited equations only", {"iterates": norm(it)}, label="added equations are not edited")
+    ctor = [c for c in walk_shallow(f.node) if isinstance(c, ast.Call) and any(k.arg == "equations" for k in c.keywords)
+            and not call_name(c) == "_update_equation"]
+    if not ctor:
+        raise AnalysisError(f"{rid}: cannot find the constructor call of update_template that receives equations=")
+    e = next(k.value for k in ctor[-1].keywords if k.arg == "equations")
+    if derives_from_add(e):
+        ctx.ok(rid, f0, ctor[-1], "the added equations reach the derived template", label="added equations are kept")
+    else:
+        ctx.violation(rid, f0, ctor[-1], "the equations given under `add` never reach the equations of the derived template", label="added equations are kept")
+
+
+def _anc15(n):
+    from engine.srcmodel import parent
+    p = parent(n)
+    while p is not None:
+        yield p
+        p = parent(p)
+
+
 RULES = [
     ("C15-R1", r1_left_context, 2),
     ("C15-R2", r2_dumper_vs_constructor, 8),
@@ -466,4 +530,5 @@ RULES = [
     ("C15-R7", r7_dumper_is_read_only, 8),
     ("C15-R8", r8_boundary_vocabulary, 1),
     ("C15-R9", r9_cached_defaults, 3),
+    ("C15-R10", r10_added_equations_verbatim, 2),
 ]
